@@ -301,7 +301,11 @@ fn stmt_to_asg_stmt(stmt: synast::Stmt, context: &mut Context) -> Option<asg::St
         synast::Stmt::IfStmt(if_stmt) => {
             let condition = expr_to_asg_texpr(if_stmt.condition(), context);
             with_scope!(context,  ScopeType::Local,
-                        let then_branch = block_or_stmt_to_asg_type(if_stmt.true_body_block_or_stmt(), context);
+                        let then_branch = match (if_stmt.then_branch_block(), if_stmt.then_branch_stmt()) {
+                            // `if (c);` has no body at all
+                            (None, None) => empty_body(&if_stmt, context),
+                            _ => block_or_stmt_to_asg_type(if_stmt.true_body_block_or_stmt(), context),
+                        };
             );
             with_scope!(context,  ScopeType::Local,
                         let else_branch = if_stmt.false_body_block_or_stmt().map(|bors| block_or_stmt_to_asg_type(bors, context));
@@ -312,7 +316,11 @@ fn stmt_to_asg_stmt(stmt: synast::Stmt, context: &mut Context) -> Option<asg::St
         synast::Stmt::WhileStmt(while_stmt) => {
             let condition = expr_to_asg_texpr(while_stmt.condition(), context);
             with_scope!(context,  ScopeType::Local,
-                        let loop_body = block_or_stmt_to_asg_type(while_stmt.block_or_stmt(), context);
+                        let loop_body = match (while_stmt.body(), while_stmt.stmt()) {
+                            // `while (c);` has no body at all
+                            (None, None) => empty_body(&while_stmt, context),
+                            _ => block_or_stmt_to_asg_type(while_stmt.block_or_stmt(), context),
+                        };
             );
             Some(asg::While::new(condition.unwrap(), loop_body).to_stmt())
         }
@@ -337,7 +345,11 @@ fn stmt_to_asg_stmt(stmt: synast::Stmt, context: &mut Context) -> Option<asg::St
             };
             with_scope!(context,  ScopeType::Local,
                         let loop_var_symbol_id = context.new_binding(loop_var.string().as_ref(), &ty, &loop_var);
-                        let loop_body = block_or_stmt_to_asg_type(for_stmt.block_or_stmt(), context);
+                        let loop_body = match (for_stmt.body(), for_stmt.stmt()) {
+                            // `for int i in r;` has no body at all
+                            (None, None) => empty_body(&for_stmt, context),
+                            _ => block_or_stmt_to_asg_type(for_stmt.block_or_stmt(), context),
+                        };
             );
             Some(asg::ForStmt::new(loop_var_symbol_id, iterable, loop_body).to_stmt())
         }
@@ -1205,6 +1217,13 @@ fn block_or_stmt_to_asg_type(val: oq3_syntax::BlockOrStmt, context: &mut Context
             asg::Block::new(stmt_to_asg_stmt(stmt, context).into_iter().collect())
         }
     }
+}
+
+// A control-flow statement whose body is missing altogether, such as `while (c);`, which
+// parses without error because the lone `;` is skipped. OQ3 has no empty statement.
+fn empty_body<T: synast::AstNode>(node: &T, context: &mut Context) -> asg::Block {
+    context.insert_error(NotImplementedError, node);
+    asg::Block::new(Vec::new())
 }
 
 // Convert AST scalar type to a `types::Type`
